@@ -235,6 +235,10 @@ func (g *docGen) literal(ty *ref.Type, depth int) *ref.Value {
 			{Kind: "Enum", Raw: "ANY"}, {Kind: "List", Items: []*ref.Value{{Kind: "Int", Raw: "1"}, {Kind: "String", Raw: "x"}}},
 			{Kind: "Object", Fields: []*ref.ObjField{{Name: "k", Value: &ref.Value{Kind: "Int", Raw: "1"}}, {Name: "l", Value: &ref.Value{Kind: "List"}}}}}).Draw(g.t, "custom")
 	}
+	if (ty.Name == "Float" || ty.Name == "ID") && g.chance("bigint", 12) {
+		// an integer literal beyond 64 bits is a Float / an ID like any other
+		return &ref.Value{Kind: "Int", Raw: rapid.SampledFrom([]string{"99999999999999999999", "-9223372036854775809", "123456789012345678901234567890"}).Draw(g.t, "big")}
+	}
 	return ConstOfType(g.t, g.lookup, &ref.Type{Name: ty.Name, NonNull: true}, depth, false)
 }
 
